@@ -86,7 +86,11 @@ func msgsExec(mode msgsMode) func(t *testing.T, ssc schedrun.Scenario, o vsched.
 		sequential := variant == "seq"
 		cases := lookupCases(sender, names)
 		s := vsched.Run(t, o, func() {
-			w := NewWorld(2, nil, false)
+			n := 2
+			if strings.HasPrefix(pt, "hub-") {
+				n = 3
+			}
+			w := NewWorld(n, nil, false)
 			sc := &mScene{w: w, V: w.P[0], M: w.P[1], S: newStranger(77), Pt: pt}
 			if err := sc.setup(); err != nil {
 				obs.SetupErr = err.Error()
@@ -106,6 +110,9 @@ func msgsExec(mode msgsMode) func(t *testing.T, ssc schedrun.Scenario, o vsched.
 				if w.partyOf(e.Sender) == V.Idx {
 					if _, isReq := e.Msg.(*client.ChannelUpdateMsg); obs.Inflight && isReq {
 						return false
+					}
+					if sc.B != nil && w.partyOf(e.Recipient) == sc.B.Idx {
+						return false // hub points: B is an honest real client, the hub's answers reach it
 					}
 					return true
 				}
@@ -190,6 +197,9 @@ func msgsExec(mode msgsMode) func(t *testing.T, ssc schedrun.Scenario, o vsched.
 			for _, e := range w.Enabled[enBefore:] {
 				if e.Who == V.Idx {
 					obs.EnabledAtV++
+					if sc.B != nil && sc.led != nil && e.Ch == sc.led.ID() {
+						sc.ledMoved = true
+					}
 				}
 			}
 			if mode.Probe {
@@ -339,6 +349,28 @@ func c07acceptable(v *mChanView, up *client.ChannelUpdateMsg, pend []pendingAuto
 			if balancesMoved(cur, to, p.Bals, -1) {
 				return ""
 			}
+		case "vfund":
+			rest, x, ok := mWithout(to.Locked, p.ID)
+			if _, _, before := mWithout(cur.Locked, p.ID); before || !ok || !mSameLocked(rest, cur.Locked) {
+				continue
+			}
+			if !mSameSubAlloc(x, channel.NewSubAlloc(p.ID, p.Bals.Sum(), p.IndexMap)) {
+				continue
+			}
+			if balancesMoved(cur, to, mapBals(p.Bals, p.IndexMap, n), -1) {
+				return ""
+			}
+		case "vsettle":
+			rest, x, ok := mWithout(cur.Locked, p.ID)
+			if _, _, after := mWithout(to.Locked, p.ID); after || !ok || !mSameLocked(rest, to.Locked) {
+				continue
+			}
+			if len(x.IndexMap) != len(p.IndexMap) {
+				continue
+			}
+			if balancesMoved(cur, to, mapBals(p.Bals, p.IndexMap, n), +1) {
+				return ""
+			}
 		case "settle":
 			rest, _, ok := mWithout(cur.Locked, p.ID)
 			if _, _, after := mWithout(to.Locked, p.ID); after || !ok || !mSameLocked(rest, to.Locked) {
@@ -350,6 +382,24 @@ func c07acceptable(v *mChanView, up *client.ChannelUpdateMsg, pend []pendingAuto
 		}
 	}
 	return ordinary
+}
+
+// mapBals: what each of the n participants of a parent owes for / gets from a virtual channel
+// with balances bals: participant q stands for every virtual participant p with indexMap[p] == q.
+func mapBals(bals channel.Balances, indexMap []channel.Index, n int) channel.Balances {
+	out := make(channel.Balances, len(bals))
+	for a := range bals {
+		out[a] = make([]channel.Bal, n)
+		for q := range out[a] {
+			out[a][q] = new(big.Int)
+		}
+		for p, q := range indexMap {
+			if p < len(bals[a]) && int(q) < n {
+				out[a][q].Add(out[a][q], bals[a][p])
+			}
+		}
+	}
+	return out
 }
 
 // balancesMoved: to.Balances == cur.Balances + sign*bals, entry by entry.
@@ -445,6 +495,22 @@ func judgeCountersignatures(sc *mScene, obs *msgsObs, views map[channel.ID]*mCha
 		it.Why = c07acceptable(view, cr.upd, sc.pend)
 		it.Acceptable = it.Why == ""
 	}
+	// Several crafted messages may carry the same state (e.g. once with a valid and once with a
+	// garbage signature). The victim signs a state, not a message: its one countersignature of that
+	// state belongs to the message that made it acceptable, if there is one.
+	for _, cr := range crafts {
+		it := &obs.Items[cr.item]
+		if !it.Countersigned || it.Acceptable {
+			continue
+		}
+		for _, other := range crafts {
+			o := &obs.Items[other.item]
+			if other.item != cr.item && o.Countersigned && o.Acceptable && fx.Enc(other.upd.State) == fx.Enc(cr.upd.State) {
+				it.Countersigned, it.How = false, "the countersignature of this state answers "+o.Name
+				break
+			}
+		}
+	}
 }
 
 func mDecodeState(enc string) *channel.State {
@@ -464,6 +530,9 @@ type msgsPlan struct {
 	PairSeq      bool // pairs are injected one after the other with 60 s in between
 	InflightPts  []string
 	InflightCats map[string]bool
+	// thorough tier only: further history points with their own families
+	ThoroughPoints []string
+	ThoroughCats   map[string]bool
 }
 
 func msgsScenarios(mode msgsMode, plan msgsPlan) func(res *report.Result) []schedrun.Scenario {
@@ -481,6 +550,14 @@ func msgsScenarios(mode msgsMode, plan msgsPlan) func(res *report.Result) []sche
 			}
 		}
 		if res.Thorough() {
+			for _, pt := range plan.ThoroughPoints {
+				for i := range all {
+					c := &all[i]
+					if plan.ThoroughCats[c.Cat] && c.applies(pt) {
+						out = append(out, schedrun.Scenario{Name: pt + "/" + c.Sender + "/" + c.Name, Mode: explore.Delay, Bound: 0, MaxSteps: 400000, Weight: 3})
+					}
+				}
+			}
 			variant := ""
 			if plan.PairSeq {
 				variant = "~seq"
